@@ -72,6 +72,9 @@ def _cases(tier, seed):
         if kind == '_AppendAction' and dest not in ('privacy',) and typ is None and not choices:
             for fmt in ('setupcfg', 'ini'):
                 yield {'dest': dest, 'flag': flag, 'kind': kind, 'value': ['My Documents/custom templates', 'plain', 'vendored libs/other pack'], 'fmt': fmt}
+            # ... and written as a list / array with blanks at the ends of the quoted values
+            for fmt in ('toml', 'setupcfg', 'ini'):
+                yield {'dest': dest, 'flag': flag, 'kind': kind, 'value': [' lead', 'trail ', ' both ', 'in side'], 'fmt': fmt}
     # unknown key, CLI override, accumulation
     yield {'special': 'ini-rules-in-pydoctor-ini', 'text': "project-name = 'tab\\there'", 'want': 'tab\there'}
     yield {'special': 'ini-rules-in-pydoctor-ini', 'text': 'project-name = 100%%', 'want': '100%'}
